@@ -136,13 +136,25 @@ IsCompleteTag(t) == TagLen(t) > 0 /\ IsBlank(Drop(t, TagLen(t)))        \* an op
 (* paragraph text as HTML: complete tags are raw inline HTML, a bracketed label that matches a definition (and is not followed by
    another bracket or a parenthesis) is a shortcut reference link, everything else is escaped (the alphabets hold no other inline syntax).
    D is the sequence of the document's definitions; the first one with the label wins. *)
-(* link destinations are written percent-encoded where a character may not stand in a URL (the alphabets only produce these three) *)
+(* link destinations are written percent-encoded where a character may not stand in a URL (the alphabets only produce these five) *)
 RECURSIVE HrefEnc(_)
 HrefEnc(u) == IF u = "" THEN "" ELSE LET c == Ch(u, 1) IN
-              (CASE c = " " -> "%20" [] c = "[" -> "%5B" [] c = "]" -> "%5D" [] OTHER -> Esc(c)) \o HrefEnc(Drop(u, 1))
+              (CASE c = " " -> "%20" [] c = "[" -> "%5B" [] c = "]" -> "%5D" [] c = "\\" -> "%5C" [] c = "<" -> "%3C" [] OTHER -> Esc(c)) \o HrefEnc(Drop(u, 1))
+(* backslash escapes and character references (of the latter the alphabets spell only &amp; and &lt;), resolved in one pass: what a
+   backslash escaped begins no reference, and what a reference gave is not read again *)
+AsciiPunct == {"!", "\"", "#", "$", "%", "&", "'", "(", ")", "*", "+", ",", "-", ".", "/", ":", ";", "<", "=", ">", "?", "@", "[", "\\", "]", "^", "_", "`", "{", "|", "}", "~"}
+RECURSIVE Unescape(_)
+Unescape(s) == IF s = "" THEN ""
+              ELSE IF Ch(s, 1) = "\\" /\ Ch(s, 2) \in AsciiPunct THEN Ch(s, 2) \o Unescape(Drop(s, 2))
+              ELSE IF StartsWith(s, "&amp;") THEN "&" \o Unescape(Drop(s, 5))
+              ELSE IF StartsWith(s, "&lt;") THEN "<" \o Unescape(Drop(s, 4))
+              ELSE Ch(s, 1) \o Unescape(Drop(s, 1))
 RECURSIVE InlineHtml(_, _)
 InlineHtml(s, D) ==
     IF s = "" THEN ""
+    ELSE IF Ch(s, 1) = "\\" /\ Ch(s, 2) \in AsciiPunct THEN Esc(Ch(s, 2)) \o InlineHtml(Drop(s, 2), D)
+    ELSE IF StartsWith(s, "&amp;") THEN "&amp;" \o InlineHtml(Drop(s, 5), D)
+    ELSE IF StartsWith(s, "&lt;") THEN "&lt;" \o InlineHtml(Drop(s, 4), D)
     ELSE IF Ch(s, 1) = "<" /\ TagLen(s) > 0 THEN Take(s, TagLen(s)) \o InlineHtml(Drop(s, TagLen(s)), D)
     ELSE IF Ch(s, 1) = "[" THEN
         LET S == {i \in 2..Len(s) : Ch(s, i) \in {"[", "]"}}
@@ -237,9 +249,9 @@ ParseDef(c) ==
                    /\ (q = "(" => Count(SubSeq(c, t0 + 1, tEnd - 1), "(") = 0)   \* a title in parentheses holds none unescaped
                    /\ (e2 > Len(c) \/ Ch(c, e2) = "\n")                       \* nothing else on its last line
                    /\ ~HasSub(SubSeq(c, t0, tEnd), "\n\n")
-        noTitle == [ok |-> TRUE, len |-> IF e1 > Len(c) THEN Len(c) ELSE e1, label |-> label, dest |-> dest, title |-> ""] IN
+        noTitle == [ok |-> TRUE, len |-> IF e1 > Len(c) THEN Len(c) ELSE e1, label |-> label, dest |-> Unescape(dest), title |-> ""] IN
     IF ~(Ch(c, 1) = "[" /\ rb > 2 /\ Count(label, "[") = 0 /\ Trim(label) # "" /\ Ch(c, rb + 1) = ":" /\ destOk) THEN NoDef
-    ELSE IF titleOk THEN [ok |-> TRUE, len |-> IF e2 > Len(c) THEN Len(c) ELSE e2, label |-> label, dest |-> dest, title |-> SubSeq(c, t0 + 1, tEnd - 1)]
+    ELSE IF titleOk THEN [ok |-> TRUE, len |-> IF e2 > Len(c) THEN Len(c) ELSE e2, label |-> label, dest |-> Unescape(dest), title |-> Unescape(SubSeq(c, t0 + 1, tEnd - 1))]
     ELSE IF endsLine THEN noTitle
     ELSE NoDef
 
@@ -409,6 +421,7 @@ Parse(d) == ParseFrom(Empty, d, 1)
 
 ---------------------------------------------------------------------------
 (* alphabets that a configuration file cannot spell (backslash) *)
+R5 == {"[a]: /&amp;amp;", "[a]: /\\\\*", "[a]: /u '\\&lt;'", "[a]: /u '&amp;lt;'", "[a]", "a", "", "\\[a]", "[a] &amp;lt; \\&amp;", "> [a]", "# [a]"}      \* escapes and references in definitions
 W1 == {"a", "a  ", "a ", "a\\", "===  ", "---  ", "```  ", "# a  ", "> a  ", "- a  ", "", "  ", "# a #  ", "***  "}
 
 (* the behaviour: one action per line read.  Exhaustive exploration visits every line sequence up to MaxLines (sharded by the
